@@ -21,7 +21,7 @@ Times(R) == { R.recs[k].time : k \in 1..Len(R.recs) }
 RecAt(R, t) == R.recs[CHOOSE k \in 1..Len(R.recs) : R.recs[k].time = t]
 Parts(r) == { r.parts[i] : i \in 1..Len(r.parts) }
 \* same particle values (bit for bit through the digest); identifiers only where the relation preserves numbering
-PartEq(p, q, withPid) == /\ p.key = q.key /\ (withPid => p.pid = q.pid)
+PartEq(p, q, withPid) == /\ (IF withPid THEN p.pid = q.pid ELSE p.key = q.key)
                          /\ p.x = q.x /\ p.y = q.y /\ p.z = q.z /\ p.age = q.age /\ p.hx = q.hx
 \* every particle of record rb (not excluded) has its twin in ra
 Covered(ra, rb, withPid, excl) == \A p \in Parts(rb) : (p.farm \notin excl) => \E q \in Parts(ra) : PartEq(q, p, withPid)
@@ -34,6 +34,9 @@ Related(B, tmap(_), keep(_), withPid, excl) ==
 PvEq(B, n) == /\ Len(B.pvsrc) >= n /\ Len(A.pvsrc) >= n /\ Len(B.pvrt) >= n /\ Len(A.pvrt) >= n
               /\ \A p \in 1..n : B.pvsrc[p] = A.pvsrc[p] /\ B.pvrt[p] = A.pvrt[p]
 Min(a, b) == IF a < b THEN a ELSE b
+\* the uninterrupted run ends with step Nsteps - 1; its clock would read start + Nsteps dt at the next step, which a warm-started
+\* run does execute (WarmFinalRecord): records are compared strictly before that time
+AlignedStop(B) == B.astart + ((B.astop - B.astart) \div B.adt) * B.adt
 
 Init == l = 1 /\ tid = 0 /\ status = "ok" /\ S = [none |-> 0] /\ A = [none |-> 0]
 Setup == Is("setup") /\ Verdict /\ tid' = Ev.tid /\ status' = "ok" /\ S' = Ev /\ A' = [none |-> 0]
@@ -62,11 +65,11 @@ RunB ==
          Check("mirror.records", (okAB /\ k = "mirror") => LET m(t) == B.axis - t IN (Len(B.recs) = Len(A.recs) /\ Related(B, m, Always, TRUE, {}))),
          Check("mirror.order", (okAB /\ k = "mirror") => \A r \in 1..Min(Len(A.recs), Len(B.recs)) : A.recs[r].time = B.axis - B.recs[r].time),
          \* C08: records written after the restart (before the stop time) equal the uninterrupted run's, files continue
-         Check("restart.records", (okAB /\ k = "restart") => LET before(t) == t < B.stop IN Related(B, Id, before, TRUE, {})),
+         Check("restart.records", (okAB /\ k = "restart") => LET before(t) == t < AlignedStop(B) IN Related(B, Id, before, TRUE, {})),
          Check("restart.covers_rest_of_run", (okAB /\ k = "restart") => \A t \in Times(A) : (t > B.restart_time) => t \in Times(B)),
          Check("restart.nothing_before", (okAB /\ k = "restart") => \A t \in Times(B) : t > B.restart_time),
          Check("restart.file_numbering", (okAB /\ k = "restart") => \A f \in 1..Len(B.idx) : B.idx[f] = B.fromidx + f),
-         Check("restart.particle_variables", (okAB /\ k = "restart") => PvEq(B, Min(Len(A.pvsrc), Len(B.pvsrc))) /\ Len(B.pvsrc) >= Len(A.pvsrc))>>))
+         Check("restart.particle_variables", (okAB /\ k = "restart" /\ Len(B.recs) > 0) => PvEq(B, Min(Len(A.pvsrc), Len(B.pvsrc))) /\ Len(B.pvsrc) >= Len(A.pvsrc))>>))
    /\ UNCHANGED <<tid, S, A>>
 Next == Setup \/ Eof \/ RunA \/ RunB
 Spec == Init /\ [][Next]_vars
